@@ -498,6 +498,19 @@ def run_case(c):
             return m.vals.ndim == 2 and m.vals.shape[0] > 0 and m.vals.shape[1] > 0 and isinstance(d, FlowCal.io.FCSData)
 
         roots = [()] if k == 'chain' else [(c['first'],)]
+        if k == 'depth2-full':
+            # only first keys that lead to another 2-D sample are roots of the complete depth-2 exploration
+            try:
+                with warnings.catch_warnings():
+                    warnings.simplefilter('ignore')
+                    st0 = build_(roots[0])
+                okroot = expandable(st0)
+            except Exception:
+                okroot = False
+            if not okroot:
+                res.ok('depth2-root-not-a-2d-sample', False)
+                res.sample({'shape': shape, 'bfs': k, 'root': list(roots[0]), 'skipped': 'first key does not yield a 2-D sample'})
+                return res
         st = bfs.search(build_, events, check, lambda s: fp(s[0]), expandable,
                         c.get('depth', 2) if k == 'chain' else 1, roots=roots)
         res.hashes |= st['states']
